@@ -112,9 +112,9 @@ func (t *Input) CoerceIn(v interface{}) (interface{}, error) {
 			}
 		}
 		for k, f := range t.fields.dict {
-			ov := tv[k]
+			ov, has := tv[k]
 			if ov == nil {
-				if f.Default != nil { // if not set then add the default value if not nil
+				if f.Default != nil && !has { // if not set then add the default value if not nil
 					if rt != nil {
 						if err := t.reflectSetKey(rv, k, f.Default); err != nil {
 							return nil, inErr(err, k)
